@@ -1,6 +1,7 @@
 //! C05 - invalid input is refused, with the matching error, however it is spelled.
 
 use proptest::prelude::*;
+use serde::{Deserialize, Serialize};
 use serde_json::json;
 
 use crate::api::{parse, ISmall, IStr, ITyped, ParseInst};
@@ -264,6 +265,96 @@ fn o_positioned(c: &Positioned, st: &mut Stats) -> Result<(), String> {
     Ok(())
 }
 
+/// Scheme faults with *every* scalar value: one of the four characters of `pkg:` replaced by it, or it
+/// put in front. (Replacing a letter by its other ASCII case is not a fault the statement judges.)
+#[derive(Clone, Debug, Serialize, Deserialize)]
+pub struct SchemeScalar {
+    pub text: String,
+}
+
+const SCHEME_BASES: &[&str] = &["pkg:npm/foo@1.0", "pkg:maven/g/a@1?k=v#s"];
+
+fn scheme_scalar(idx: u64) -> Option<SchemeScalar> {
+    let per = 0x110000u64;
+    let base = SCHEME_BASES[(idx / (5 * per)) as usize % SCHEME_BASES.len()];
+    let pos = ((idx / per) % 5) as usize;
+    let c = char::from_u32((idx % per) as u32)?;
+    let rest = &base[4..];
+    let scheme: Vec<char> = "pkg:".chars().collect();
+    let text = if pos == 4 {
+        format!("{c}{base}")
+    } else {
+        if c.to_ascii_lowercase() == scheme[pos] {
+            return None;
+        }
+        let mut t: String = scheme.iter().enumerate().map(|(i, x)| if i == pos { c } else { *x }).collect();
+        t.push_str(rest);
+        t
+    };
+    Some(SchemeScalar { text })
+}
+
+fn o_scheme_scalar(c: &SchemeScalar, st: &mut Stats) -> Result<(), String> {
+    if c.text.get(..4).is_some_and(|p| p.eq_ignore_ascii_case("pkg:")) {
+        return Err("bad replay case: the scheme is intact".into());
+    }
+    refused_with::<IStr>(&c.text, "UnsupportedUrlScheme")?;
+    refused_with::<ISmall>(&c.text, "UnsupportedUrlScheme")?;
+    refused_with::<ITyped>(&c.text, "Parse(UnsupportedUrlScheme)")?;
+    st.class("scheme:every-scalar");
+    st.nontrivial_enumerated(|| json!({ "string": c.text, "expected": "UnsupportedUrlScheme" }));
+    Ok(())
+}
+
+/// Every short well-formed type name (first a letter, then letters, digits, '.', '+', '-'), in lower and
+/// in upper case: unless it is one of the seven names, the typed PURL refuses it with UnsupportedType.
+const TYPE_FIRST: &[u8] = b"abcdefghijklmnopqrstuvwxyz";
+const TYPE_REST: &[u8] = b"abcdefghijklmnopqrstuvwxyz0123456789.+-";
+
+fn short_types_total(max_len: u32) -> u64 {
+    2 * (1..=max_len).map(|l| 26 * 39u64.pow(l - 1)).sum::<u64>()
+}
+
+fn short_type(idx: u64) -> Option<String> {
+    let upper = idx & 1 == 1;
+    let mut idx = idx >> 1;
+    let mut len = 1u32;
+    loop {
+        let n = 26 * 39u64.pow(len - 1);
+        if idx < n {
+            break;
+        }
+        idx -= n;
+        len += 1;
+    }
+    let mut s = String::with_capacity(len as usize);
+    s.push(TYPE_FIRST[(idx % 26) as usize] as char);
+    idx /= 26;
+    for _ in 1..len {
+        s.push(TYPE_REST[(idx % 39) as usize] as char);
+        idx /= 39;
+    }
+    if upper {
+        s.make_ascii_uppercase();
+    }
+    Some(s)
+}
+
+fn o_short_type(ty: &String, st: &mut Stats) -> Result<(), String> {
+    if !crate::chars::is_valid_type(ty) {
+        return Err("bad replay case: not a well-formed type".into());
+    }
+    if crate::chars::KNOWN_TYPES.contains(&ty.to_ascii_lowercase().as_str()) {
+        st.class("one of the seven names (not a fault)");
+        return Ok(());
+    }
+    let text = format!("pkg:{ty}/g/n@1");
+    refused_with::<ITyped>(&text, "Package::UnsupportedType")?;
+    st.class("unknown-type:short");
+    st.nontrivial_enumerated(|| json!({ "string": text, "expected": "Package::UnsupportedType" }));
+    Ok(())
+}
+
 fn cells(kind: &str) -> Vec<&'static str> {
     match kind {
         "scheme" => vec!["scheme:prefix-removed", "scheme:colon-missing", "scheme:colon-replaced", "scheme:other-scheme", "scheme:char-before"],
@@ -360,6 +451,22 @@ pub fn sections() -> Vec<Box<dyn Section>> {
         complete: true,
     }));
     v.push(Box::new(Enumerated {
+        name: "scheme-every-scalar-at-every-position".into(),
+        total: Box::new(|_| 2 * 5 * 0x110000u64),
+        make: Box::new(|_, i| scheme_scalar(i)),
+        oracle: o_scheme_scalar,
+        required: vec!["scheme:every-scalar"],
+        complete: true,
+    }));
+    v.push(Box::new(Enumerated {
+        name: "unknown-type-every-short-name".into(),
+        total: Box::new(|t: Tier| short_types_total(t.pick(5, 6))),
+        make: Box::new(|_, i| short_type(i)),
+        oracle: o_short_type,
+        required: vec!["unknown-type:short"],
+        complete: true,
+    }));
+    v.push(Box::new(Enumerated {
         name: "token-language-never-accepted".into(),
         total: Box::new(|t: Tier| strata_total(&strata(t.pick(5, 6), t.pick(5, 7)))),
         make: Box::new(|t: Tier, i| strata_make(&strata(t.pick(5, 6), t.pick(5, 7)), i)),
@@ -397,7 +504,9 @@ pub fn prop() -> Prop {
                MissingRequiredField(Namespace) for the two typed-only kinds). Plus, for nine fixed base PURLs covering every \
                component, every invalid-UTF-8 pattern and every hidden '/' at every unit boundary of every decoded \
                component, every invalid character at every position of the type, a bad item at every item position and a \
-               character before the scheme (complete). Plus every string of the bounded token \
+               character before the scheme (complete). Plus every Unicode scalar value in place of each of the four \
+               characters of `pkg:` and in front of it, and every well-formed type name of up to 5 (thorough: 6) \
+               characters in lower and in upper case through the typed PURL (complete). Plus every string of the bounded token \
                language for which the independent recogniser M-strict finds a listed defect: never accepted. Every case \
                is a fault case; non-trivial/distinct = distinct faulty strings by hash (token strings distinct by \
                construction). The evidence lists counts per (kind, component/spelling) cell; an empty cell is a harness \
